@@ -22,10 +22,10 @@
    Oracles (Section variables of C16_Gen.v) are universally quantified and
    constrained by explicit hypotheses ("the oracle answers like the model of it").
    Library facts that do not mention the generated file are in
-   theories/C16_GenProofs.v. CLIManager.Get (interface result type), List and
-   parsePluginFromDir (WalkDir) are outside the translator (docs/audit/C16.md,
-   section GoLite): the composition of the translated pieces into [get] is stated
-   below (C16_gen_Get_composition). *)
+   theories/C16_GenProofs.v. CLIManager.Get is translated too (section 6:
+   C16_gen_Get_spec / _footprint / _equiv; C16_gen_Get_composition is the model-side
+   lemma it rests on). List and parsePluginFromDir (WalkDir) are outside the
+   translator (docs/audit/C16.md, section GoLite). *)
 From Coq Require Import List Bool String Ascii NArith ZArith Lia.
 From NV Require Import Base GoLib C16_Path C16_Model C16_Proofs C16_Audit C16_GenProofs C16_Gen.
 Import ListNotations.
@@ -555,6 +555,96 @@ Proof.
   apply C16_gen_validatePluginName_nil_iff in G. rewrite (dir_path root name A G). reflexivity.
 Qed.
 Print Assumptions C16_gen_Uninstall_contained.
+
+(* ---- CLIManager.Get (result: the interface plugin.Plugin = ptr (ptr CLIPlugin),
+   PNil = nil interface, PNew PNil = a nil *CLIPlugin inside a non-nil interface) ---- *)
+
+(* the plugin a Get result lets the caller use, as its path *)
+Definition plugin_path_of (r : ptr (ptr plugin_CLIPlugin) * option GoLib.err) : option string :=
+  match ptr_val (fst r) with
+  | Some inner => option_map CLIPlugin_path (ptr_val inner)
+  | None => None
+  end.
+
+(* Get, every behaviour of every oracle: validation first; then ONE path,
+   SysPath(path.Join(name, binName(name))), handed to NewCLIPlugin *)
+Theorem C16_gen_Get_spec : forall FI Stat IsRegular SysPath PJoin m name,
+  gen_plugin_CLIManager_Get FI Stat IsRegular SysPath PJoin m name =
+  match gen_plugin_validatePluginName name with
+  | Some e => (PNil, Some e)
+  | None =>
+      match SysPath [PJoin [name; gen_plugin_binName name]] with
+      | (_, Some e) => (PNil, Some e)
+      | (p, None) => (PNew (fst (gen_plugin_NewCLIPlugin FI Stat IsRegular name p)),
+                      snd (gen_plugin_NewCLIPlugin FI Stat IsRegular name p))
+      end
+  end.
+Proof.
+  intros. unfold gen_plugin_CLIManager_Get.
+  destruct (gen_plugin_validatePluginName name) as [e|]; cbn [GoLib.is_none negb]; [reflexivity|].
+  destruct (SysPath _) as [p [e|]]; cbn [GoLib.is_none negb]; [reflexivity|].
+  destruct (gen_plugin_NewCLIPlugin FI Stat IsRegular name p); reflexivity.
+Qed.
+Print Assumptions C16_gen_Get_spec.
+
+(* a refused name: nil interface and the validation error, whatever the oracles are *)
+Theorem C16_gen_Get_rejected : forall FI Stat IsRegular SysPath PJoin m name e,
+  gen_plugin_validatePluginName name = Some e ->
+  gen_plugin_CLIManager_Get FI Stat IsRegular SysPath PJoin m name = (PNil, Some e).
+Proof. intros. rewrite C16_gen_Get_spec, H. reflexivity. Qed.
+Print Assumptions C16_gen_Get_rejected.
+
+(* footprint: the result depends on the operating system only through what Stat
+   answers (and IsRegular says of that answer) on the one executable path *)
+Theorem C16_gen_Get_footprint : forall FI Stat Stat' IsRegular SysPath PJoin m name,
+  let p := fst (SysPath [PJoin [name; gen_plugin_binName name]]) in
+  Stat p = Stat' p ->
+  gen_plugin_CLIManager_Get FI Stat IsRegular SysPath PJoin m name
+  = gen_plugin_CLIManager_Get FI Stat' IsRegular SysPath PJoin m name.
+Proof.
+  intros FI Stat Stat' IsReg SysPath PJ m name p HS. rewrite !C16_gen_Get_spec.
+  destruct (gen_plugin_validatePluginName name); [reflexivity|]. subst p.
+  destruct (SysPath _) as [q [e|]]; [reflexivity|]. cbn [fst] in HS.
+  unfold gen_plugin_NewCLIPlugin. rewrite <- HS. reflexivity.
+Qed.
+Print Assumptions C16_gen_Get_footprint.
+
+(* an error means no usable plugin (the interface may be non-nil then: Go's
+   typed nil, kept by the translation - callers must test the error) *)
+Theorem C16_gen_Get_error_no_plugin : forall FI Stat IsRegular SysPath PJoin m name,
+  let g := gen_plugin_CLIManager_Get FI Stat IsRegular SysPath PJoin m name in
+  snd g <> None -> plugin_path_of g = None.
+Proof.
+  intros FI Stat IsReg SysPath PJ m name. cbn zeta. rewrite C16_gen_Get_spec.
+  destruct (gen_plugin_validatePluginName name); [reflexivity|].
+  destruct (SysPath _) as [q [e|]]; [reflexivity|].
+  unfold plugin_path_of, gen_plugin_NewCLIPlugin.
+  destruct (Stat q) as [fi [e|]]; cbn [GoLib.is_none negb fst snd ptr_val option_map]; [reflexivity|].
+  destruct (IsReg fi); cbn [negb fst snd ptr_val option_map]; [intros H; now elim H|reflexivity].
+Qed.
+Print Assumptions C16_gen_Get_error_no_plugin.
+
+(* = the model's get, for every name, root and file system: error class, the
+   path of the plugin found, and the effect log (nothing for a refused name, one
+   stat of <root>/<name>/notation-<name> otherwise) *)
+Theorem C16_gen_Get_equiv :
+  forall FI Stat IsRegular SysPath PJoin notexist w root,
+    lib_errors_distinct notexist -> stat_agrees FI Stat IsRegular notexist w ->
+    syspath_agrees SysPath root -> (forall l, PJoin l = pjoin l) ->
+    forall m name,
+      let g := gen_plugin_CLIManager_Get FI Stat IsRegular SysPath PJoin m name in
+      get w root name =
+      (errc notexist (snd g), plugin_path_of g,
+       if GoLib.is_none (gen_plugin_validatePluginName name)
+       then [EStat (pjoin [root; pjoin [name; gen_plugin_binName name]])] else []).
+Proof.
+  intros FI Stat IsReg SysPath PJ ne w root Hd Hs Hp Hj m name. cbn zeta.
+  rewrite (C16_gen_Get_composition FI Stat IsReg ne w Hd Hs), C16_gen_Get_spec.
+  destruct (gen_plugin_validatePluginName name) as [e|]; cbn [GoLib.is_none]; [reflexivity|].
+  rewrite Hj, (Hp [pjoin [name; gen_plugin_binName name]]). cbn zeta.
+  unfold new_cli_abs, plugin_path_of. cbn [fst snd ptr_val]. reflexivity.
+Qed.
+Print Assumptions C16_gen_Get_equiv.
 
 (* isExecutableFile (view Mode() of the opaque FileInfo; FileMode.IsRegular and
    FileMode.Perm translated from io/fs): the model's stat + x bit *)
